@@ -43,9 +43,21 @@ class Router:
         return frozenset(self.topics_by_queue.keys())
 
     def include_router(self, router: Router) -> None:
+        for name, actor in router.actors.items():
+            self._forget_topic(name, actor.queue)
         self.actors.update(router.actors)
         for queue_name, topics in router.topics_by_queue.items():
             self.topics_by_queue[queue_name].update(topics)
+
+    def _forget_topic(self, name: str, new_queue: str) -> None:
+        # an actor registered again on another queue is no longer served by its old queue
+        previous = self.actors.get(name)
+        if previous is None or previous.queue == new_queue:
+            return
+        topics = self.topics_by_queue[previous.queue]
+        topics.discard(name)
+        if not topics:
+            del self.topics_by_queue[previous.queue]
 
     @overload
     def actor(
@@ -136,6 +148,7 @@ class Router:
                 "followed by letters, digits, dashes or underscores.",
             )
 
+        self._forget_topic(a.name, a.queue)
         self.actors[a.name] = a
         self.topics_by_queue[a.queue].add(a.name)
         return fn
